@@ -161,7 +161,17 @@ func (p *Prog) verifyFunc(fn *ssa.Function, ct *Contract) (res *FuncResult) {
 	if !isInit {
 		for _, gi := range p.globalInvs {
 			if pk := pre.pkg(); pk != nil && pk.Name() == gi.Pkg {
-				vc.assumeRaw(pre.evalBool(gi.Clause.Expr))
+				func() {
+					defer func() {
+						if r := recover(); r != nil {
+							if u, ok := r.(unsupported); ok {
+								panic(unsupported{"global invariant " + gi.Clause.Label + " cannot be stated any more: " + u.msg})
+							}
+							panic(r)
+						}
+					}()
+					vc.assumeRaw(pre.evalBool(gi.Clause.Expr))
+				}()
 				vc.trusted["global-invariant:"+gi.Pkg+"."+gi.Clause.Label+" (proved of init; no-other-store scan)"] = true
 			}
 		}
